@@ -5,6 +5,7 @@ package main
 // verification of one function against its contract.
 
 import (
+	"os"
 	"fmt"
 	"sort"
 	"go/ast"
@@ -75,7 +76,53 @@ func (ex *Exec) proveSplit(e ast.Expr, info *types.Info, env *SpecEnv, pc *Term)
 			}
 		}
 	}
-	return []*Term{ex.proveSpec(e, info, env, pc)}
+	// spec functions expand to conjunctions: prove the conjuncts separately
+	t := ex.proveSpec(e, info, env, pc)
+	if os.Getenv("LNCVC_NOSPLIT") == "" {
+		return splitGoal(t, 16)
+	}
+	return []*Term{t}
+}
+
+// splitGoal splits a goal into conjuncts: A && B, and G => (A && B) (a
+// skolemised quantifier body under its guard), up to max pieces.
+func splitGoal(t *Term, max int) []*Term {
+	if max <= 1 {
+		return []*Term{t}
+	}
+	switch t.op {
+	case "and":
+		if len(t.args) > max {
+			return []*Term{t}
+		}
+		var out []*Term
+		for _, a := range t.args {
+			out = append(out, splitGoal(a, max/len(t.args))...)
+		}
+		return out
+	case "or":
+		// exactly one conjunctive disjunct: distribute
+		k := -1
+		for i, a := range t.args {
+			if a.op == "and" {
+				if k >= 0 {
+					return []*Term{t}
+				}
+				k = i
+			}
+		}
+		if k < 0 {
+			return []*Term{t}
+		}
+		var out []*Term
+		for _, c := range splitGoal(t.args[k], max) {
+			args := append([]*Term(nil), t.args...)
+			args[k] = c
+			out = append(out, Or(args...))
+		}
+		return out
+	}
+	return []*Term{t}
 }
 
 func (ex *Exec) evalSpecBool(e ast.Expr, info *types.Info, env *SpecEnv, pc *Term) *Term {
@@ -458,6 +505,12 @@ func (ex *Exec) specAddr(e ast.Expr, info *types.Info, env *SpecEnv, pc *Term) V
 			if k == len(idx)-1 {
 				return np
 			}
+			if _, isPtr := stt.Field(i).Type().Underlying().(*types.Pointer); !isPtr {
+				// an embedded struct value: stay inside the same object
+				cur = np
+				t = stt.Field(i).Type()
+				continue
+			}
 			ex.dry++; ex.inSpec++
 			cur = ex.load(env.st, np, stt.Field(i).Type(), pc, token.NoPos)
 			ex.dry--; ex.inSpec--
@@ -574,7 +627,7 @@ func (ex *Exec) specCall(call *ast.CallExpr, info *types.Info, env *SpecEnv, pc 
 			}
 			return IntV{Ite(lt, b, a)}
 		}
-		panic("contract: unsupported builtin " + id.Name)
+		panic(fmt.Sprintf("contract: unsupported builtin %s on %T in %s", id.Name, arg(0), exprString(call)))
 	}
 	fnObj, _ := obj.(*types.Func)
 	if fnObj == nil {
@@ -685,6 +738,13 @@ func (ex *Exec) specCall(call *ast.CallExpr, info *types.Info, env *SpecEnv, pc 
 			panic("contract: oncedone() of a non-Once")
 		}
 		return BoolV{ov.Done}
+	case "same":
+		// same(a, b): component-wise identity of two values of the same type
+		a, b := arg(0), arg(1)
+		if a.shape() != b.shape() {
+			return BoolV{False}
+		}
+		return BoolV{EqV(a, b)}
 	case "bufbytes":
 		// bufbytes(&buf): the unread content of a bytes.Buffer
 		ex.dry++
@@ -741,7 +801,10 @@ func (ex *Exec) specCall(call *ast.CallExpr, info *types.Info, env *SpecEnv, pc 
 		if a.St != b.St || a.St == StLocal {
 			return BoolV{False}
 		}
-		return BoolV{And(Eq(a.ID, b.ID), BVSle(b.Off, a.Off), BVSle(BVAdd(a.Off, a.Len), BVAdd(b.Off, b.Len)), BVSle(BV(0, 64), a.Len))}
+		// (stated over the relative offset: for well-formed slices - offsets and
+		// lengths in [0, 2^40] - this is b.Off <= a.Off && a.Off+a.Len <= b.Off+b.Len)
+		rel := BVSub(a.Off, b.Off)
+		return BoolV{And(Eq(a.ID, b.ID), BVSle(BV(0, 64), rel), BVSle(BVAdd(rel, a.Len), b.Len), BVSle(BV(0, 64), a.Len))}
 	case "offsetin":
 		a, b := arg(0).(SliceV), arg(1).(SliceV)
 		return IntV{BVSub(a.Off, b.Off)}
